@@ -19,10 +19,16 @@ Local Open Scope Z_scope.
    conditionals, short-circuit logic, wrapping arithmetic, casts, '^' through the host import),
    and traps with "integer divide by zero" exactly when spec.md prescribes a runtime error.
    [Unspec]: spec.md is silent (negative integer exponent, float->int of NaN), nothing claimed.
+   LOOPS: the theorem is for loop-free functions ([loop_free_block]). spec.md defines no loops;
+   the compiler's for / range / break / continue are modelled in Spec.v (conventional semantics,
+   with fuel), Compile.v and Wasm.v (block / loop / br with the compiler's depth bookkeeping) and
+   are covered by the byte-for-byte and value correspondence and by the monitor on every run,
+   not by this theorem.
    The full statement (without the two guard hypotheses) is FALSE: see the _refuted theorems. *)
 Theorem C19_compile_correct_partial : forall (fo : float_ops) (f : func) (args : list (val fo)),
   check_func f = true -> locals_ok f = true ->
   Forall2 (vok fo) (f_params f) args ->
+  loop_free_block (f_body f) = true ->
   static_flags f = [] -> dyn_flags fo f args = [] ->
   exists w, compile f = Some w /\
     match spec_run fo f args with
@@ -38,7 +44,8 @@ Print Assumptions C19_compile_correct_partial.
    under the WebAssembly validation rules (operand stack typing, block types, polymorphic stack
    after return/unreachable, a result on every path). *)
 Theorem C19_validates_partial : forall f,
-  check_func f = true -> locals_ok f = true -> static_flags f = [] ->
+  check_func f = true -> locals_ok f = true -> loop_free_block (f_body f) = true ->
+  static_flags f = [] ->
   exists w, compile f = Some w /\ validate w = true.
 Proof. exact validates_partial. Qed.
 Print Assumptions C19_validates_partial.
@@ -150,6 +157,15 @@ Example C19_u64_literal_fixed :
   spec_z w_biglit (ints [3]) = Some 2 /\
   wres_z (run_raw w_biglit (ints [3])) = Some (true, inl 2).
 Proof. exact u64_literal_fixed. Qed.
+
+(* The loop part of the model, on one function: range loop with step, continue in the final
+   else of an else-if chain, break, nested condition loop; compiled code and reference
+   semantics agree. (Evaluation only: loops are outside the proved fragment.) *)
+Example C19_loop_model_example :
+  wf w_loop = true /\ loop_free_block (f_body w_loop) = false /\
+  spec_z w_loop (ints [10]) = Some 1326 /\
+  wres_z (run_raw w_loop (ints [10])) = Some (true, inl 1326).
+Proof. exact loop_model_example. Qed.
 
 Example C19_nonvacuous :
   wf w_ok = true /\
